@@ -5,8 +5,11 @@
    Every stochastic decision of a simulation (scheduling, move, operation,
    criteria) consumes the next value of ITS OWN stream, which is a function of
    its seed only; the environment may re-seed / advance the global generators
-   at any time (PerturbGlobal) and no simulation step reads them.  The
-   simulation state is the history of what it consumed.
+   at any time (PerturbGlobal) and no simulation step reads them; each
+   simulation also lives in an interpreter with its own string-hash salt
+   (PYTHONHASHSEED), which no step reads either (the order of the move table
+   is its insertion order, never a set's).  The simulation state is the
+   history of what it consumed.
 
    Invariants: same seed => same state at the same step count, whatever the
    environment did; different seeds => different states once a draw has
@@ -19,24 +22,25 @@ MaxGlobal == 2
 
 Stream(seed, i) == <<seed, i>>          \* the i-th value of the stream of `seed` (injective in both)
 
-VARIABLES seedA, seedB, usedA, usedB, idxA, idxB, stateA, stateB, glob, globReads
+VARIABLES seedA, seedB, usedA, usedB, idxA, idxB, stateA, stateB, glob, globReads, saltA, saltB
 
-vars == <<seedA, seedB, usedA, usedB, idxA, idxB, stateA, stateB, glob, globReads>>
+vars == <<seedA, seedB, usedA, usedB, idxA, idxB, stateA, stateB, glob, globReads, saltA, saltB>>
 
 \* the generator is built from the seed the user gave (any non-negative integer, 0 included)
 Init == /\ seedA \in Seeds /\ seedB \in Seeds
         /\ usedA = seedA /\ usedB = seedB
         /\ idxA = 0 /\ idxB = 0 /\ stateA = <<>> /\ stateB = <<>>
         /\ glob = 0 /\ globReads = 0
+        /\ saltA \in {0, 1} /\ saltB \in {0, 1}
 
 StepA == /\ idxA < MaxSteps
          /\ stateA' = Append(stateA, Stream(usedA, idxA)) /\ idxA' = idxA + 1
-         /\ UNCHANGED <<seedA, seedB, usedA, usedB, idxB, stateB, glob, globReads>>
+         /\ UNCHANGED <<seedA, seedB, usedA, usedB, idxB, stateB, glob, globReads, saltA, saltB>>
 StepB == /\ idxB < MaxSteps
          /\ stateB' = Append(stateB, Stream(usedB, idxB)) /\ idxB' = idxB + 1
-         /\ UNCHANGED <<seedA, seedB, usedA, usedB, idxA, stateA, glob, globReads>>
+         /\ UNCHANGED <<seedA, seedB, usedA, usedB, idxA, stateA, glob, globReads, saltA, saltB>>
 PerturbGlobal == /\ glob < MaxGlobal /\ glob' = glob + 1
-                 /\ UNCHANGED <<seedA, seedB, usedA, usedB, idxA, idxB, stateA, stateB, globReads>>
+                 /\ UNCHANGED <<seedA, seedB, usedA, usedB, idxA, idxB, stateA, stateB, globReads, saltA, saltB>>
 
 Next == StepA \/ StepB \/ PerturbGlobal
 Spec == Init /\ [][Next]_vars
